@@ -58,6 +58,9 @@ def run_case(ctx, Model, case):
         from .common import h64
         case['model_class'] = ['plain', 'plain', 'plain', 'traced', 'aliased', 'pandas'][h64(['cls', case]) % 6]
     ctx.seen('model_classes', case['model_class'])
+    if 't_numpy' not in case:
+        from .common import h64
+        case['t_numpy'] = h64(['tnp', case]) % 5 == 0       # the position given as a NumPy integer
     Model = model_variant(Model, case['model_class'])
     if 'write_mode' not in case:
         # how the scripted model stores its outcome: in place, or through a whole-series write (deterministic in the case)
